@@ -514,6 +514,12 @@ def run_prop(ctx, prop, focuses):
         out.rule = "replay of a native-thread probe case (repeated 5 times: OS scheduling)"
         m1_threads.probe(ctx, out, {prop}, 5, cases=[ctx.replay["case"]] * 5)
         return out
+    if ctx.replay and ctx.replay.get("case", {}).get("kind") == "native-process":
+        from . import m1_threads
+        out = Result()
+        out.rule = "replay of a native process-backend probe case"
+        m1_threads.process_probe(ctx, out, {prop}, 1, cases=[ctx.replay["case"]])
+        return out
     if ctx.replay and ctx.replay.get("case", {}).get("instr"):
         sc = Scenario.from_json(ctx.replay["case"])
         out = Result()
@@ -534,6 +540,7 @@ def run_prop(ctx, prop, focuses):
         if prop in ("C01", "C04", "C09"):
             from . import m1_threads
             m1_threads.probe(ctx, out, {prop}, 80)
+            m1_threads.process_probe(ctx, out, {prop}, 16)
         return out
     rs = [explore(ctx, {prop}, 2400 // len(focuses), f"quick-{f}", f) for f in focuses]
     out = merge(rs)
@@ -543,6 +550,7 @@ def run_prop(ctx, prop, focuses):
     if prop in ("C01", "C04", "C09"):
         from . import m1_threads
         m1_threads.probe(ctx, out, {prop}, 12)
+        m1_threads.process_probe(ctx, out, {prop}, 4)
     return out
 
 
